@@ -8,7 +8,7 @@ from vlib.harness import sample_quota
 PROP = "C13"
 LEVEL = "model_checking"
 ANCHOR_PREFIXES = ["connector::", "element::SvgElement::transmute", "element::SvgElement::is_connector", "position::Length::calc_offset", "position::parse_el_loc", "position::BoundingBox::locspec"]
-BOUNDS = ("two boxes (rect/circle) with symbolic position (integers in [-64,64]) and size (integers in [0,32]); endpoint specs {#el, #el@loc (9), #el@edge:offset (symbolic either sign / 25% / 50% / 150%), "
+BOUNDS = ("two boxes (rect/circle) with symbolic position (integers in [-64,64]) and size (integers in [0,32]); endpoint specs {#el, #el@loc (9), #el@edge:offset (symbolic either sign / 25% / 50% / 150%, all four edges), "
           "literal point (symbolic)} on either end; kinds {line straight, edge-type h, edge-type v, corner polyline with corner-offset absent / 25% / 125% / absolute symbolic of either sign}; "
           "paths: those reached from 12 seeded arrangements (9 sectors, overlapping, touching, identical) plus solver-driven negation for templates without a closest-location search; "
           "every reached path is decided for all values (nonlinear real arithmetic over the hull of the domain)")
